@@ -120,10 +120,10 @@ func (e *Engine) docUnmarshal(st *State, a []Value, mode string, site ssa.Instru
 		cfg := e.loadPtr(st, tgt).(*StructV)
 		f := append([]Value(nil), cfg.f...)
 		type item struct {
-			has       bool
-			src, dst  int
-			users     bool
-			secrets   bool
+			has      bool
+			src, dst int
+			users    bool
+			secrets  bool
 		}
 		for _, it := range []item{{v[1], 2, 0, false, true}, {v[2], 4, 1, true, false}, {v[3], 6, 2, false, false}, {v[4], 8, 3, false, false}} {
 			if !it.has {
